@@ -71,3 +71,7 @@ Proof.
   exists ix1, ix2. repeat split; assumption.
 Qed.
 Print Assumptions C08_threaded_builds_agree.
+
+(* Assumptions of the remaining named statements of this file (the gate requires one per statement). *)
+Print Assumptions C08_index_total.
+Print Assumptions C08_arrival_order_dictionary.
